@@ -110,7 +110,7 @@ def Op.lookups : Op → List Bytes
 /-- every name a message can touch or look up: as written, and normalized -/
 def Op.names (op : Op) : List Bytes := op.lookups ++ op.lookups.map normalizeName ++ op.targets
 
-/-- `Keeper.ExportGenesis` (genesis.go:28): every record of the store becomes a binding. -/
+/-- `Keeper.ExportGenesis` (genesis.go:24): every record of the store becomes a binding. -/
 def exportGenesis {κ : Type} (st : State κ) : List Record := allRecords st
 
 /-- two states hold the same key-value pairs in both halves of the store (the order of the
